@@ -483,6 +483,8 @@ def check_base_run(J, res, obs):
         J.viol("panic", focus_of(w), None, "no panic", res.brief())
         return
     if res.code != 0:
+        if re.search(r"internal error: package \S+ without types was imported", res.err + res.out):
+            raise Stalled(f"go/packages internal error (toolchain / build cache trouble, not mockery) on world {w.idx}")
         J.viol("run-failed", focus_of(w), None, "exit 0 and every configured mock written", res.brief())
         return
     obs_m = {}
@@ -577,6 +579,9 @@ def mock_diffs(inst, e, o):
 def run_bin(ctx, cwd, args, env, tracefile, timeout=180):
     """thread-safe variant of ctx.run_mockery (which numbers its trace files with an unlocked counter)"""
     e = go_env(env)
+    # a private Go build cache: the worlds' packages are compiled per world directory anyway, and the shared cache is
+    # trimmed / cleaned by other jobs while go/packages is reading it ("internal error: package ... without types")
+    e["GOCACHE"] = str(ctx.scratch / "gocache")
     if tracefile is not None:
         e["VERIFHOOK_TRACE"] = str(tracefile)
     t = time.time()
@@ -601,6 +606,9 @@ def varies(case, param):
     return any(param in unjson(v) for v in case["cfg"].values())
 
 
+UNREPRODUCED = []
+
+
 class Stalled(Exception):
     pass
 
@@ -608,7 +616,16 @@ class Stalled(Exception):
 def run_world(ctx, T, case, idx, quick):
     """one retry from scratch when a run stalls (an overloaded machine must not turn into a verdict or an abort)"""
     try:
-        return run_world_once(ctx, T, case, idx, quick)
+        r = run_world_once(ctx, T, case, idx, quick)
+        if r[0]:
+            # a verdict needs a reproduction: the same world once more from scratch (go/packages fails sporadically when
+            # the shared Go build cache is trimmed or the disk fills up under it)
+            shutil.rmtree(ctx.scratch / "worlds" / f"w{idx}", ignore_errors=True)
+            r2 = run_world_once(ctx, T, case, idx, quick)
+            if not r2[0]:
+                UNREPRODUCED.append({"world": idx, "desc": case["desc"], "first_attempt": r[0][0][0]})
+            return r2
+        return r
     except Stalled:
         shutil.rmtree(ctx.scratch / "worlds" / f"w{idx}", ignore_errors=True)
         try:
@@ -1034,6 +1051,19 @@ def vacuity(T, cases, stats):
 
 
 def run(ctx):
+    """anything the machinery cannot do (disk full, a parser tripping over unexpected output, ...) is exit 2, never a verdict"""
+    try:
+        return run_checked(ctx)
+    except MachineryError:
+        raise
+    except subprocess.TimeoutExpired:
+        raise
+    except Exception as ex:  # noqa: BLE001
+        import traceback
+        raise MachineryError(f"{type(ex).__name__}: {ex}\n" + "".join(traceback.format_exc().splitlines(True)[-6:]))
+
+
+def run_checked(ctx):
     global SHARED
     import threading
     replay = None
@@ -1079,7 +1109,7 @@ def run(ctx):
     text_groups = {}
     t0 = time.time()
     samples = []
-    with cf.ThreadPoolExecutor(max_workers=int(os.environ.get("C08_JOBS", "12"))) as ex:
+    with cf.ThreadPoolExecutor(max_workers=int(os.environ.get("C08_JOBS", "16"))) as ex:
         futs = [ex.submit(run_world, ctx, T, c, i, quick) for i, c in enumerate(cases)]
         for i, f in enumerate(futs):
             bad, st, res, w, inst = f.result()
@@ -1098,6 +1128,9 @@ def run(ctx):
                                 "file": os.path.relpath(m["path"], inst.W), "verdict": "observed = contract"})
     t_replay = time.time() - t0
     bad_all += compare_texts(text_groups, stats)
+    for u in UNREPRODUCED[:10]:
+        ctx.note("unreproduced (first attempt failed, identical second attempt passed; not a verdict): " + json.dumps(u))
+    ctx.cov["worlds_with_unreproduced_failure"] = len(UNREPRODUCED)
     sw_bad = [x for x in bad_all if x[0].get("param", "").startswith("template-data[")]
     if sw_bad and len(SWITCH_SEEN) < 2 * (len(MATRYER_SWITCHES) + 1):
         raise MachineryError(f"built-in template switch observers saw only {sorted(SWITCH_SEEN)}: the template text changed, cannot observe")
